@@ -53,7 +53,16 @@ def c05_models(I, st, caller, func, args, argtys, dest_ty):
         I.fresh_counter += 1
         d = z3.Int("blst_ok!%d" % I.fresh_counter)
         st.assume(z3.Or(d == 0, d == 1))
+        for a_ in args:
+            sl_ = BM.as_slice(I, st, a_) if not isinstance(a_, (bool, int)) else None
+            if sl_ is not None:
+                st.trace = st.trace + (("point_decode", sl_.off, (sl_.length, d)),)
+                break
         return MM.ret(st, EnumV("Result", d, {0: (Abs("point", z3.Int("blst_point!%d" % I.fresh_counter)),), 1: (Opaque("BLST_ERROR"),)}))
+    if re.match(r"^blst_p1_uncompress$", f):
+        for a_ in args:
+            if isinstance(a_, Opaque) and isinstance(a_.payload, BM.SymSlice):
+                st.trace = st.trace + (("point_decode", a_.payload.off, (a_.payload.length, z3.IntVal(0))),)
     if re.match(r"^blst_[a-z0-9_]+$", f):
         # FFI into blst on a pointer into the buffer: memory safety of the C side is outside; the Rust side's length guard is on the path condition
         st.trace = st.trace + (("ffi", f, None),)
@@ -108,6 +117,23 @@ def native_decode(rows, profile="dev"):
     return out
 
 
+_SAMPLES = {}
+
+
+def SAMPLE_POINTS():
+    """honest curve points by encoded length (96: verification key, 48: signature), from the native binary"""
+    if not _SAMPLES:
+        try:
+            exe = os.path.join(core.CACHE, "replay-target", "debug", "verif-replay-stm")
+            out = subprocess.run([exe, "sample_points"], stdout=subprocess.PIPE, stderr=subprocess.PIPE, text=True, timeout=120).stdout.strip().split()
+            for hx in out:
+                b = bytes.fromhex(hx)
+                _SAMPLES[len(b)] = b
+        except Exception:
+            _SAMPLES[0] = b""
+    return _SAMPLES
+
+
 def buffer_from_model(model, st, length_term, cap=4096):
     n = model.eval(length_term, model_completion=True).as_long()
     n = min(n, cap)
@@ -123,6 +149,14 @@ def buffer_from_model(model, st, length_term, cap=4096):
             val = model.eval(ev[2], model_completion=True).as_long()
             if 0 <= off < n:
                 buf[off] = val % 256
+    # where the path needs a curve point to decode successfully, put honest key / signature bytes there
+    for ev in st.trace:
+        if ev[0] == "point_decode":
+            off = model.eval(ev[1], model_completion=True).as_long()
+            ln = model.eval(ev[2][0], model_completion=True).as_long() if z3.is_expr(ev[2][0]) else int(ev[2][0])
+            okv = model.eval(ev[2][1], model_completion=True).as_long()
+            if okv == 0 and ln in SAMPLE_POINTS() and 0 <= off and off + ln <= n:
+                buf[off:off + ln] = SAMPLE_POINTS()[ln]
     return bytes(buf)
 
 
